@@ -124,3 +124,137 @@ Proof.
   destruct (read_full_short p e tail (vb_value hdr) Hq Hlen) as [rest [t3 E3]].
   rewrite E3. eexists. split; [reflexivity|]. cbn. auto.
 Qed.
+
+(* ------------------------------------------------------------------ *)
+(* the stream ends or fails inside the remaining-length field: after the
+   first byte and 0..3 continuation bytes *)
+Lemma vb_stream_loop_cut : forall cs fuel mult value s tr got rest p e tail,
+  forallb cont cs = true -> (length cs < fuel)%nat ->
+  mult * 128 ^ N.of_nat (length cs) <= 128 * 128 * 128 * 128 ->
+  sbytes s = cs ++ rest -> avail (len cs) s = true ->
+  sdrop (len cs) s = failing p e tail -> quietlast p e = true -> sbytes p = [] ->
+  exists r tr',
+    vb_stream_loop fuel mult value s tr got = Some (Err (full_err e []), r, tr', got ++ cs).
+Proof.
+  induction cs as [|c cs IH]; intros fuel mult value s tr got rest p e tail Hc Hfuel Hm Hs Hav Hd Hq Hp.
+  - destruct fuel as [|fuel]; [cbn in Hfuel; lia|].
+    rewrite len_nil, sdrop_0 in Hd. subst s. cbn [vb_stream_loop].
+    destruct (read_full_short p e tail 1 Hq) as [r [t E]]; [rewrite Hp, len_nil; lia|].
+    rewrite E, Hp. exists r. eexists. rewrite !app_nil_r. reflexivity.
+  - destruct fuel as [|fuel]; [cbn in Hfuel; lia|].
+    cbn [forallb] in Hc. apply andb_prop in Hc as [Hc1 Hcs]. unfold cont in Hc1. apply N.leb_le in Hc1.
+    rewrite len_cons in Hav, Hd.
+    assert (A1 : avail 1 s = true) by (apply (avail_mono s _ 1 Hav); lia).
+    destruct (read_full_avail s 1) as [t E]; [lia|exact A1|].
+    cbn [vb_stream_loop]. rewrite E, Hs. cbn [app]. rewrite firstn_1_cons.
+    cbn [length] in Hm. rewrite Nat2N.inj_succ, N.pow_succ_r' in Hm.
+    assert (Hpow : 1 <= 128 ^ N.of_nat (length cs)).
+    { assert (H0 : 128 ^ N.of_nat (length cs) <> 0) by (apply N.pow_nonzero; discriminate). lia. }
+    rewrite (proj2 (N.ltb_ge _ _)) by nia.
+    rewrite (proj2 (N.ltb_ge _ _)) by lia.
+    destruct (IH fuel (mult * 128) (value + b2n c mod 128 * mult) (sdrop 1 s) (tr ++ t) (got ++ [c]) rest p e tail)
+      as [r [tr' E']]; try assumption.
+    + cbn [length] in Hfuel. lia.
+    + nia.
+    + rewrite sbytes_sdrop by exact A1. rewrite Hs. reflexivity.
+    + apply avail_sdrop. exact Hav.
+    + rewrite sdrop_sdrop by exact A1. exact Hd.
+    + exists r, tr'. rewrite E'. rewrite <- app_assoc. reflexivity.
+Qed.
+
+Lemma read_packet_cut_header b0 cs rest s p e tail :
+  forallb cont cs = true -> (length cs <= 3)%nat ->
+  sbytes s = b0 :: cs ++ rest -> avail (1 + len cs) s = true ->
+  sdrop (1 + len cs) s = failing p e tail -> quietlast p e = true -> sbytes p = [] ->
+  exists r, read_packet s = RP r /\ r_pkt r = None /\
+            r_err r = Some (full_err e []) /\ r_got r = b0 :: cs.
+Proof.
+  intros Hc Hl Hs Hav Hd Hq Hp.
+  assert (A1 : avail 1 s = true) by (apply (avail_mono s _ 1 Hav); lia).
+  destruct (read_full_avail s 1) as [t1 E1]; [lia|exact A1|].
+  unfold read_packet. rewrite E1, Hs, firstn_1_cons.
+  unfold vb_stream.
+  destruct (vb_stream_loop_cut cs 6 1 0 (sdrop 1 s) [] [] rest p e tail Hc) as [r [t2 E2]]; try assumption.
+  - lia.
+  - assert (H : 128 ^ N.of_nat (length cs) <= 128 ^ 3) by (apply N.pow_le_mono_r; lia). lia.
+  - rewrite sbytes_sdrop by exact A1. rewrite Hs. reflexivity.
+  - apply avail_sdrop. exact Hav.
+  - rewrite sdrop_sdrop by exact A1. exact Hd.
+  - rewrite E2. eexists. split; [reflexivity|]. cbn. auto.
+Qed.
+
+(* ------------------------------------------------------------------ *)
+(* a packet comes only out of a whole frame *)
+Fixpoint vbshape (hdr : list byte) : Prop :=
+  match hdr with
+  | [] => False
+  | [a] => cont a = false
+  | a :: r => cont a = true /\ vbshape r
+  end.
+
+Lemma vb_stream_loop_ok : forall fuel mult value s tr got v s' tr' g',
+  vb_stream_loop fuel mult value s tr got = Some (Ok v, s', tr', g') ->
+  exists hdr, g' = got ++ hdr /\ vbshape hdr /\ v = value + mult * vb_value hdr
+              /\ mult * 128 ^ N.of_nat (length hdr - 1) <= 128 * 128 * 128.
+Proof.
+  induction fuel as [|fuel IH]; intros mult value s tr got v s' tr' g' H; [discriminate|].
+  cbn [vb_stream_loop] in H.
+  destruct (read_full 1 s) as [[[[bs e] s1] t]|] eqn:E; [|discriminate].
+  destruct e as [e|]; [discriminate|].
+  destruct (read_full_1 _ _ _ _ E) as [b ->].
+  destruct (128 * 128 * 128 <? mult) eqn:Em; [discriminate|]. apply N.ltb_ge in Em.
+  destruct (b2n b <? 128) eqn:Eb.
+  - injection H as <- <- <- <-. exists [b]. split; [reflexivity|]. split.
+    + cbn [vbshape]. unfold cont. apply N.leb_gt. apply N.ltb_lt. exact Eb.
+    + cbn [vb_value length Nat.sub]. apply N.ltb_lt in Eb. split; [rewrite N.mod_small by lia; lia|].
+      cbn. lia.
+  - destruct (IH _ _ _ _ _ _ _ _ _ H) as [hdr [Eg [Hsh [Ev Hm]]]].
+    exists (b :: hdr). split; [rewrite Eg, <- app_assoc; reflexivity|]. split; [|split].
+    + destruct hdr as [|x r]; [contradiction|]. cbn [vbshape]. split; [|exact Hsh].
+      unfold cont. apply N.leb_le. apply N.ltb_ge. exact Eb.
+    + rewrite Ev. cbn [vb_value]. lia.
+    + destruct hdr as [|x r]; [contradiction|]. cbn [length Nat.sub] in *. rewrite Nat.sub_0_r in *.
+      rewrite Nat2N.inj_succ, N.pow_succ_r'. lia.
+Qed.
+
+Lemma vbshape_wf hdr : vbshape hdr -> (length hdr <= 4)%nat -> wf_vb hdr = true.
+Proof.
+  intros H Hl. destruct hdr as [|a [|b [|c [|d [|e t]]]]]; cbn [vbshape wf_vb] in *; try contradiction.
+  - rewrite H. reflexivity.
+  - destruct H as [-> ->]. reflexivity.
+  - destruct H as [-> [-> ->]]. reflexivity.
+  - destruct H as [-> [-> [-> ->]]]. reflexivity.
+  - cbn [length] in Hl. lia.
+Qed.
+
+Lemma vb_stream_ok s v s' tr g : vb_stream s = Some (Ok v, s', tr, g) -> wf_vb g = true /\ vb_value g = v.
+Proof.
+  unfold vb_stream. intros H. destruct (vb_stream_loop_ok _ _ _ _ _ _ _ _ _ _ H) as [hdr [Eg [Hsh [Ev Hm]]]].
+  cbn [app] in Eg. subst g. split; [|lia]. apply vbshape_wf; [exact Hsh|].
+  destruct (Nat.le_gt_cases (length hdr) 4) as [Hle|Hgt]; [exact Hle|exfalso].
+  assert (H4 : 128 ^ 4 <= 128 ^ N.of_nat (length hdr - 1)) by (apply N.pow_le_mono_r; lia).
+  assert (E4 : 128 ^ 4 = 268435456) by reflexivity. lia.
+Qed.
+
+Lemma read_packet_got_frame s r : read_packet s = RP r -> r_pkt r <> None ->
+  exists b0 hdr body, r_got r = b0 :: hdr ++ body /\ wf_vb hdr = true /\ len body = vb_value hdr.
+Proof.
+  unfold read_packet. intros H Hp.
+  destruct (read_full 1 s) as [[[[bs e] s1] t1]|] eqn:E1; [|discriminate].
+  destruct e as [e|]; [injection H as <-; contradiction Hp; reflexivity|].
+  destruct (read_full_1 _ _ _ _ E1) as [b0 ->].
+  destruct (vb_stream s1) as [[[[o s2] t2] g2]|] eqn:E2; [|discriminate].
+  destruct o as [rl|e|]; [|injection H as <-; contradiction Hp; reflexivity|discriminate].
+  destruct (vb_stream_ok _ _ _ _ _ E2) as [W V].
+  destruct (fresh_pkt (b2n b0)) as [k p0].
+  destruct (rl =? 0) eqn:Erl.
+  - injection H as <-. cbn [r_got]. exists b0, g2, []. apply N.eqb_eq in Erl.
+    split; [rewrite app_nil_r; reflexivity|]. split; [exact W|]. rewrite V, Erl. reflexivity.
+  - destruct (read_full rl s2) as [[[[body e] s3] t3]|] eqn:E3; [|discriminate].
+    destruct e as [e|]; [injection H as <-; contradiction Hp; reflexivity|].
+    assert (Hlen : len body = rl).
+    { unfold read_full in E3. apply read_full_loop_len in E3; [|rewrite len_nil; lia]. apply E3. reflexivity. }
+    destruct (unmarshal k p0 body); try discriminate.
+    + injection H as <-. cbn [r_got]. exists b0, g2, body. split; [reflexivity|]. split; [exact W|]. rewrite V. exact Hlen.
+    + injection H as <-. contradiction Hp. reflexivity.
+Qed.
